@@ -49,6 +49,9 @@ CHECKS["C09"] = ("model_checking", "bounded-exhaustive exploration of the real c
 CHECKS["C18"] = ("model_checking", "bounded-exhaustive exploration of the real code: all sequences of N operations over a 12-operation alphabet (physical on-press/on-release keys, macro item, TCP path, two hold-for-duration lengths) with inter-operation gaps around the durations, a 0/1-tick TCP race family, an on-idle family through the idle-loop twin with activity at every offset, and sequence-completion taps; checked against the VkeySpec boolean model with exact timed-release obligations",
   "For every explored operation sequence the number of press pulses and the final state of the virtual key equal the model's (same effect from every source), hold-for-duration releases exactly D ticks after the most recent activation and never earlier, on-idle fires exactly once and not before the idle time.",
   "operations >= 3 ticks apart in the main family; operations landing within 2 ticks of a pending timed release are don't-cares", "DESIGN.md §4 C18")
+CHECKS["C19"] = ("model_checking", "bounded-exhaustive exploration of the real code with a relational oracle: every typing schedule of N events (gaps {0,1,3,12}) recorded between start and every kind of stop, replayed once / twice / re-triggered, on time-insensitive and time-sensitive configs in both replay-delay behaviours and two size limits; the replay-phase output of the real instance is compared with a fresh real instance fed the recorded events; plus self-play, nested play, re-record and size-limit scenarios",
+  "For every explored recording the replay produces the same key presses in the same order (and the same multiset of events) as typing the recorded events again, nothing is left pressed, self-play terminates, and the size limit ends the recording.",
+  "typing gaps kept away from the tap-hold boundary; when a key is still down at stop on a time-sensitive config only 'nothing left down' is checked; stepper mode (C07 covers blocking)", "DESIGN.md §4 C19")
 NOT_YET = {}
 props = [json.loads(l) for l in open('/verif/properties.jsonl')]
 hooks_commits = subprocess.run(["git","-C","/repo","log","--format=%h %s"],capture_output=True,text=True).stdout.splitlines()
